@@ -766,15 +766,42 @@ def raise_after_effect(chk, pid):
                              "not all(b - a)", "not np.all(b != a)", "np.any(np.isclose(a, b))"):
                     if v.eq(cond, v.spec(text, env={"a": a_, "b": b_})):
                         exact = True
-                # the edges are non-zero by the class invariant, so a zero component of the factor is the same event
-                for text in ("not np.all(factor)", "np.any(np.asarray(factor) == 0)", "np.any(factor == 0)", "factor == 0",
-                             "not np.all(np.asarray(factor))"):
-                    if v.eq(cond, v.spec(text)):
-                        exact = True
+                # ... and it must look at the COMPUTED corners, not at an algebraically equal re-derivation (edges * factor,
+                # factor == 0): with a far-away reference point rounding can absorb the scaled extent, the copying form
+                # (constructor) then refuses what such a test lets through
+                if exact:
+                    exact = _reads_stored_operands(v, par[0].test, st["_pmin"][0])
             ok = ok or exact
     chk.ob("region.Region.scale::inplace::degenerate-refused", ok, f"{pid}.atomic",
-           "a scale factor of zero produces zero edges: the copying form is refused by the constructor, the in-place form "
-           "needs a refusal that depends on the factor / the scaled corners before it stores them", v.f, first)
+           "a scale that produces zero edges is refused by the copying form (constructor); the in-place form needs the same "
+           "refusal, evaluated on the corners it has just computed and is about to store (not on a re-derivation such as "
+           "edges * factor, which rounding can make disagree with them)", v.f, first)
+
+
+def _reads_stored_operands(v, test, store_stmt):
+    """does the test combine exactly the two operand expressions of the `np.minimum(X, Y)` that store_stmt writes?
+    (same expressions syntactically; for local names additionally the same value at both program points)"""
+    val = store_stmt.value
+    if not (isinstance(val, ast.Call) and len(val.args) == 2):
+        return False
+    want = sorted(ast.dump(a) for a in val.args)
+    for n in ast.walk(test):
+        pair = None
+        if isinstance(n, ast.BinOp) and isinstance(n.op, ast.Sub):
+            pair = [n.left, n.right]
+        elif isinstance(n, ast.Compare) and len(n.ops) == 1:
+            pair = [n.left, n.comparators[0]]
+        elif isinstance(n, ast.Call) and len(n.args) >= 2 and ast.unparse(n.func).endswith(("isclose", "equal", "subtract")):
+            pair = list(n.args[:2])
+        if pair and sorted(ast.dump(x) for x in pair) == want:
+            same = True
+            for x in pair:
+                if isinstance(x, ast.Name):
+                    same = same and v.eq(v.ev.term(x, at=v.owner(test) if hasattr(v, "owner") and v.owner(test) is not None else store_stmt),
+                                         v.ev.term(x, at=store_stmt))
+            if same:
+                return True
+    return False
 
 
 # ============================================================================ object-state purity of the whole API
@@ -863,6 +890,19 @@ REFUSALS = {
         ("reference-length", VE, f"reference_point is not None and isinstance(reference_point, {SEQ}) and "
                                  "len(reference_point) != self.ndim"),
     ],
+    # a number is never a sequence, so each refusal may be written with or without excluding the other kind first
+    "mesh.Mesh.index2point": [
+        ("sequence-of-integers", TE, (f"isinstance(D, {SEQ}) and any(not isinstance(i, numbers.Integral) for i in D)",
+                                      f"not isinstance(D, numbers.Integral) and isinstance(D, {SEQ}) and "
+                                      "any(not isinstance(i, numbers.Integral) for i in D)")),
+        ("integer-or-sequence", TE, f"not isinstance(D, numbers.Integral) and not isinstance(D, {SEQ})"),
+    ],
+    "mesh.Mesh.point2index": [
+        ("sequence-of-reals", TE, (f"isinstance(D, {SEQ}) and any(not isinstance(i, numbers.Real) for i in D)",
+                                   f"not isinstance(D, numbers.Real) and isinstance(D, {SEQ}) and "
+                                   "any(not isinstance(i, numbers.Real) for i in D)")),
+        ("real-or-sequence", TE, f"not isinstance(D, numbers.Real) and not isinstance(D, {SEQ})"),
+    ],
     "region.Region.dims.setter": [
         ("length", VE, "D is not None and isinstance(D, (tuple, list, np.ndarray, str)) and len(dims) != self.ndim"),
         ("strings", TE, "D is not None and isinstance(D, (tuple, list, np.ndarray, str)) and "
@@ -893,11 +933,14 @@ def refusal_table(chk, pid, quals=None):
             continue
         v = FV(repo, q)
         raises = v.raises()
-        pname = v.f.node.args.args[1].arg if len(v.f.node.args.args) > 1 else None
-        for key, exc, text in rows:
+        allp = v.f.node.args.posonlyargs + v.f.node.args.args
+        pname = allp[1].arg if len(allp) > 1 else None
+        for key, exc, texts in rows:
             hit = None
             seen = []
-            for r, name in raises:
+            texts = (texts,) if isinstance(texts, str) else texts
+            text = texts[0]
+            for r, name in [(r_, n_) for t_ in texts for r_, n_ in raises]:
                 if name not in exc:
                     continue
                 par = v.cfg.parent.get(id(r))
@@ -908,16 +951,19 @@ def refusal_table(chk, pid, quals=None):
                         env["E"] = v.ctx.mk(("iter", ()), (v.term(p_.iter, at=p_),))
                 if pname:
                     env["D"] = v.ev._sym(f"param:{pname}")
-                if " E" in text and "E" not in env:
-                    continue
-                try:
-                    want = v.spec(text, at=at, env=env)
-                except AnalysisError:
-                    continue
                 pt = path_term(v, r)
                 seen.append(v.show(pt)[:120])
-                if cond_equiv(v, pt, want):
-                    hit = r
+                for text_ in texts:
+                    if " E" in text_ and "E" not in env:
+                        continue
+                    try:
+                        want = v.spec(text_, at=at, env=env)
+                    except AnalysisError:
+                        continue
+                    if cond_equiv(v, pt, want):
+                        hit = r
+                        break
+                if hit is not None:
                     break
             chk.ob(f"{q}::refuses::{key}", hit is not None, f"{pid}.refusals",
                    f"no `raise {'/'.join(exc)}` reached exactly under `{text}`; raises of that type are reached under: {seen[:4]}",
@@ -936,6 +982,12 @@ DEFAULTS = {
     ],
     "region.Region.translate": [
         ("scalar-vector", "[D]", "isinstance(D, numbers.Real)"),
+    ],
+    "mesh.Mesh.index2point": [
+        ("scalar-index", "[D]", ("isinstance(D, numbers.Integral)", "not isinstance(D, (tuple, list, np.ndarray)) and isinstance(D, numbers.Integral)")),
+    ],
+    "mesh.Mesh.point2index": [
+        ("scalar-point", "[D]", ("isinstance(D, numbers.Real)", "not isinstance(D, (tuple, list, np.ndarray)) and isinstance(D, numbers.Real)")),
     ],
     "region.Region.rotate90": [
         ("reference-defaults-to-centre", "self.center", "reference_point is None"),
@@ -961,7 +1013,7 @@ def defaults_table(chk, pid, quals=None):
         if quals is not None and q not in quals:
             continue
         v = FV(repo, q)
-        args = [a.arg for a in v.f.node.args.args]
+        args = [a.arg for a in v.f.node.args.posonlyargs + v.f.node.args.args]
         env0 = {}
         if len(args) > 1:
             env0["D"] = v.ev._sym(f"param:{args[1]}")
@@ -980,11 +1032,12 @@ def defaults_table(chk, pid, quals=None):
             if not hits:
                 chk.ob(f"{q}::normalises::{key}", False, f"{pid}.defaults", f"no assignment of `{valtext}` found", v.f)
                 continue
+            alts = (condtext,) if isinstance(condtext, str) else condtext
             for st in hits:
                 pt = path_term(v, st)
-                want = v.spec(condtext, at=st, env=env0)
-                chk.ob(f"{q}::normalises::{key}", cond_equiv(v, pt, want), f"{pid}.defaults",
-                       f"`{v.src(st)}` happens under {v.show(pt)[:160]}; expected exactly under `{condtext}`", v.f, st)
+                ok_ = any(cond_equiv(v, pt, v.spec(ct_, at=st, env=env0)) for ct_ in alts)
+                chk.ob(f"{q}::normalises::{key}", ok_, f"{pid}.defaults",
+                       f"`{v.src(st)}` happens under {v.show(pt)[:160]}; expected exactly under `{alts[0]}`", v.f, st)
     if quals is not None:
         return
     # default dimension names have as many entries as the region has dimensions
